@@ -345,17 +345,23 @@ impl<'a> Runner<'a> {
                                 let mut o = s.clone();
                                 // the original key carries the original amount: search by position
                                 o.generate_utxoset_key();
-                                self.world
+                                // outputs of sibling blocks can sit at the same position: the amount is part of the
+                                // identity, and among equals the smallest name is taken so that runs are reproducible
+                                let mut cands: Vec<&String> = self
+                                    .world
                                     .outs
                                     .iter()
-                                    .find(|(_, i)| {
+                                    .filter(|(_, i)| {
                                         i.slip.block_id == s.block_id
                                             && i.slip.tx_ordinal == s.tx_ordinal
                                             && i.slip.slip_index == s.slip_index
                                             && i.slip.public_key == s.public_key
+                                            && i.slip.amount == s.amount
                                     })
-                                    .map(|(n, _)| n.clone())
-                                    .unwrap_or_else(|| format!("unk{}", atr_i))
+                                    .map(|(n, _)| n)
+                                    .collect();
+                                cands.sort();
+                                cands.first().map(|n| (*n).clone()).unwrap_or_else(|| format!("unk{}", atr_i))
                             })
                             .unwrap_or_else(|| format!("unk{}", atr_i));
                         format!("atr:{}@{}", orig, label)
@@ -873,7 +879,8 @@ pub fn run_scenario(
                         }
                     }
                     for (torn, keep) in variants {
-                        let mut files = std::collections::BTreeMap::new();
+                        // the disk as it was when this node instance started, then the operations since
+                        let mut files = r.node.io.base();
                         for (idx, (is_write, key, data)) in hist[..cut].iter().enumerate() {
                             if *is_write {
                                 let d = if idx + 1 == cut { keep.map(|k| data[..k].to_vec()).unwrap_or_else(|| data.clone()) } else { data.clone() };
@@ -883,6 +890,17 @@ pub fn run_scenario(
                             }
                         }
                         let nblocks = files.iter().filter(|(k, _)| k.ends_with(".sai")).count();
+                        // heights at which the image holds more than one block (a competing branch)
+                        let competing = {
+                            let mut per_id: std::collections::BTreeMap<u64, usize> = Default::default();
+                            for b in r.blocks.values() {
+                                let suffix = format!("-{}.sai", hex::encode(b.block.hash));
+                                if files.keys().any(|k| k.ends_with(&suffix)) {
+                                    *per_id.entry(b.block.id).or_default() += 1;
+                                }
+                            }
+                            per_id.values().filter(|n| **n > 1).count()
+                        };
                         // (the decoder is code under test: a panic in it must not take the harness down)
                         let intact = files
                             .iter()
@@ -921,7 +939,7 @@ pub fn run_scenario(
                         }
                         wd.pause();
                         trace.emit(json!({"ev": "Crash", "scn": scn_no, "i": r.step_no, "cut": cut, "of": hist.len(), "torn": torn, "res": res,
-                            "pretip": pretip, "st": stv, "extend": ext, "nblocks": nblocks, "intact": intact, "tag": st.tag}));
+                            "pretip": pretip, "st": stv, "extend": ext, "nblocks": nblocks, "intact": intact, "competing": competing, "tag": st.tag}));
                     }
                 }
             }
